@@ -100,12 +100,12 @@ def fresh_draws(c, ncalls, hash_name, same):
     return len(w.draws)
 
 
-@harness(P, per_job=True, params=lambda tier: [dict(alg=a, hash_name=h, rkid=r) for a, h, r in ([("DH", "SHA256", False), ("ECDH_P256", "SHA512", True)] if tier == "quick" else
-                                                                        [("DH", "SHA1", True), ("DH", "SHA256", False), ("ECDH_P256", "SHA512", True), ("ECDH_P256", "SHA256", False), ("ECDH_P384", "SHA384", False)])],
+@harness(P, per_job=True, params=lambda tier: [dict(alg=a, hash_name=h, rkid=r) for a, h, r in ([("DH", "SHA256", False), ("ECDH_P256", "SHA512", True), ("ECDH_P521", "SHA384", False)] if tier == "quick" else
+                                                                        [("DH", "SHA1", True), ("DH", "SHA256", False), ("ECDH_P256", "SHA512", True), ("ECDH_P256", "SHA256", False), ("ECDH_P384", "SHA384", False), ("ECDH_P521", "SHA1", True), ("ECDH_P521", "SHA512", False)])],
          raises=(ScalarOutOfRange,), max_steps=3000000,
-         bounds="public-key mode (DH over a 32-bit group, ECDH P256/P384): 3 consecutive protect calls with identical arguments for a caller who only receives the group public key "
+         bounds="public-key mode (DH over a 32-bit group, ECDH P256/P384/P521): 3 consecutive protect calls with identical arguments for a caller who only receives the group public key "
          "(the same KeyCache object in every call, with or without an explicit root key id; the DC stub returns the same public-key envelope whenever asked); each blob's ephemeral public key must be the group element of a private key that is an RNG draw "
-         "(ceil(private_key_length/8) bytes) no other blob or role uses, CEK and GCM nonce likewise", outside="longer sequences; P521",
+         "(ceil(private_key_length/8) bytes) no other blob or role uses, CEK and GCM nonce likewise", outside="longer sequences",
          must_reach=("public-key mode: ephemeral key, CEK and nonce are RNG output",))
 def fresh_draws_public(c, alg, hash_name, rkid):
     import uuid
@@ -122,8 +122,8 @@ def fresh_draws_public(c, alg, hash_name, rkid):
         return c.call(_gkdi.GroupKeyEnvelope.unpack, holder["env"])
 
     w = e2e.new_world(c, lo, lo, extra=[(_client._sync_get_key, get_key)])
-    priv_bits = {"DH": 512, "ECDH_P256": 256, "ECDH_P384": 384}[alg]
-    nbytes = priv_bits // 8
+    priv_bits = {"DH": 512, "ECDH_P256": 256, "ECDH_P384": 384, "ECDH_P521": 521}[alg]
+    nbytes = (priv_bits + 7) // 8
     x = c.int("group_private", 1, (1 << 200))
     if alg == "DH":
         # a small group keeps the element comparisons cheap for the solver; the code under test is indifferent to the group size
@@ -132,7 +132,7 @@ def fresh_draws_public(c, alg, hash_name, rkid):
         pub = refs.ref_ffcdh_key(prm.key_length, prm.field_order, prm.generator, y)
         sec_params, publen = prm.pack(), 32
     else:
-        cname = {"ECDH_P256": "secp256r1", "ECDH_P384": "secp384r1"}[alg]
+        cname = {"ECDH_P256": "secp256r1", "ECDH_P384": "secp384r1", "ECDH_P521": "secp521r1"}[alg]
         el = w.algebra._ec_element(cname, ("G", "G"), [x])
         pub = refs.ref_ecdh_key(alg[-4:], nbytes, el["x"], el["y"])
         sec_params, publen = b"", priv_bits
